@@ -35,6 +35,10 @@ Inductive pop :=
 | PGetLoop              (* loop = asyncio.get_event_loop() *)
 | PAddReader            (* loop.add_reader(fd=rx.fileno(), callback=event.set) *)
 | PIfNotPollWait        (* if not rx.poll(): await event.wait() *)
+| PIfNotPollWaitH (n : nat)
+                        (* try: <the same> except BaseException / CancelledError: <n simple statements>; raise
+                           - the n ops of the handler body follow, then PReraise; the normal path skips them *)
+| PKill                 (* process.kill() *)
 | PRemoveReader         (* loop.remove_reader(fd=rx.fileno()) *)
 | PClearEvent           (* event.clear() *)
 | PRecv (handlers : list (list exn * paction))   (* [try:] result = rx.recv() [except <classes>: <action>]* *)
@@ -136,6 +140,9 @@ Section Local.
   Definition p_with_pending (p : pside) (e : option exn) : pside :=
     {| p_pc := p_pc p; p_stat := p_stat p; p_ends := p_ends p; p_reader := p_reader p;
        p_result := p_result p; p_joined := p_joined p; p_pending := e |}.
+  Definition p_jump (p : pside) (k : nat) : pside :=
+    {| p_pc := p_pc p + k; p_stat := p_stat p; p_ends := p_ends p; p_reader := p_reader p;
+       p_result := p_result p; p_joined := p_joined p; p_pending := p_pending p |}.
   Definition p_finish (s : lst) (f : pfinal) : lst := p_set s (p_with_stat (ps s) (PSDone f)).
   Definition p_next (s : lst) : lst := p_set s (p_adv (ps s)).
 
@@ -210,6 +217,21 @@ Section Local.
           if k_readable (data s) (l_writers env s) then Some (p_next s)
           else Some (p_set s (p_adv (p_with_stat p PSWait)))         (* suspends; other tasks run *)
         else Some (p_finish s (FRaise (XCls OSErrorC)))
+    | PIfNotPollWaitH n =>
+        if e_rx (p_ends p) then
+          if k_readable (data s) (l_writers env s) then Some (p_set s (p_jump p (n + 2)))   (* over handler + PReraise *)
+          else Some (p_set s (p_adv (p_with_stat p PSWait)))         (* suspends with pc at the handler body *)
+        else Some (p_finish s (FRaise (XCls OSErrorC)))
+    | PKill =>
+        match c_stat (cs s) with
+        | CNotStarted => Some (p_finish s (FRaise (XCls AttributeErrorC)))   (* no popen object yet *)
+        | CRunning =>                                                  (* SIGKILL: the child is gone (not yet reaped) *)
+            Some {| ps := p_adv p;
+                    cs := {| c_stat := CExited; c_pc := c_pc (cs s); c_ends := no_ends; c_pend := c_pend (cs s);
+                             c_sending := c_sending (cs s); c_killed := true |};
+                    data := data s |}
+        | CExited => Some (p_next s)
+        end
     | PRecv hs => p_recv s hs p_raise_in_recv
     | PRecvDefer hs => p_recv s hs p_raise_in_recv_defer
     | PReraise =>
@@ -245,13 +267,36 @@ Section Local.
     | PSDone _ => None
     | PSWait =>
         (* event.set is called by the loop's reader callback once the descriptor is readable *)
+        (* while it waits, pc is one past the wait op *)
         if p_reader (ps s) && k_readable (data s) (l_writers env s)
-        then Some (p_set s (p_with_stat (ps s) PSRun)) else None
+        then match nth_error P (pred (p_pc (ps s))) with
+             | Some (PIfNotPollWaitH n) => Some (p_set s (p_jump (p_with_stat (ps s) PSRun) (S n)))
+             | _ => Some (p_set s (p_with_stat (ps s) PSRun))
+             end
+        else None
     | PSRun =>
         match nth_error P (p_pc (ps s)) with
         | None => Some (p_finish s FReturnOther)                     (* falls off the end: returns None *)
         | Some op => p_exec s op
         end
+    end.
+
+  (* task.cancel() / asyncio.wait_for timeout: CancelledError is thrown into the coroutine at its
+     suspension point (the only one is the wait), or the coroutine is never started at all.  Being
+     ready (data / EOF already there) does not protect a task that has not been resumed yet. *)
+  Definition p_cancel (s : lst) : option lst :=
+    match p_stat (ps s) with
+    | PSDone _ => None
+    | PSWait =>
+        match nth_error P (pred (p_pc (ps s))) with
+        | Some (PIfNotPollWaitH n) =>       (* the handler body runs, CancelledError pending until PReraise *)
+            Some (p_set s (p_with_pending (p_with_stat (ps s) PSRun) (Some CancelledErrorC)))
+        | _ => Some (p_finish s (FRaise (XCls CancelledErrorC)))
+        end
+    | PSRun =>
+        if Nat.eqb (p_pc (ps s)) 0 && negb (cs_running (c_stat (cs s))) && negb (cs_exited (c_stat (cs s)))
+        then Some (p_finish s (FRaise (XCls CancelledErrorC)))           (* cancelled before its first step *)
+        else None
     end.
 
   (* ---- child ----------------------------------------------------------------------- *)
@@ -330,14 +375,15 @@ Section Local.
     end.
 End Local.
 
-Inductive lchoice := LParent | LChild | LKill.
-Definition lchoices : list lchoice := [LParent; LChild; LKill].
+Inductive lchoice := LParent | LChild | LKill | LCancel.
+Definition lchoices : list lchoice := [LParent; LChild; LKill; LCancel].
 
 Definition lstep (P : list pop) (C : list cop) (b : beh) (env : nat) (c : lchoice) (s : lst) : option lst :=
   match c with
   | LParent => p_step P b env s
   | LChild => c_step C b s
   | LKill => c_kill s
+  | LCancel => p_cancel P s
   end.
 
 (* a choice that is not enabled is skipped: every list of choices is a schedule *)
@@ -377,7 +423,7 @@ Definition l_blocked_forever P C b (s : lst) : bool := negb (p_done s) && negb (
 (* ---- N invocations on one event loop -------------------------------------------------- *)
 Record ginv := { g_loc : lst; g_beh : beh; g_inh : ftable (* foreign ends inherited by this child *) }.
 Record gst := { g_invs : list ginv; g_running : option nat (* coroutine owning the loop thread *) }.
-Inductive gchoice := GParent (i : nat) | GChild (i : nat) | GKill (i : nat).
+Inductive gchoice := GParent (i : nat) | GChild (i : nat) | GKill (i : nat) | GCancel (i : nat).
 
 Definition ginit (behs : list beh) : gst :=
   {| g_invs := map (fun b => {| g_loc := linit; g_beh := b; g_inh := [] |}) behs; g_running := None |}.
@@ -411,13 +457,13 @@ Section Global.
   Variable P : list pop.
   Variable C : list cop.
 
-  Definition gstep (c : gchoice) (g : gst) : option gst :=
-    match c with
-    | GParent i =>
+  (* a step of the parent coroutine of invocation i on the loop thread: its next segment (LParent)
+     or the delivery of a cancellation (LCancel) *)
+  Definition gstep_p (lc : lchoice) (i : nat) (g : gst) : option gst :=
         match nth_error (g_invs g) i with
         | Some v =>
             if may_run (g_running g) i then
-              match lstep P C (g_beh v) (env_writers (g_invs g) i) LParent (g_loc v) with
+              match lstep P C (g_beh v) (env_writers (g_invs g) i) lc (g_loc v) with
               | Some s' =>
                   let forked := negb (c_running (g_loc v)) && c_running s' in
                   let v' := {| g_loc := s'; g_beh := g_beh v;
@@ -428,7 +474,12 @@ Section Global.
               end
             else None
         | None => None
-        end
+        end.
+
+  Definition gstep (c : gchoice) (g : gst) : option gst :=
+    match c with
+    | GParent i => gstep_p LParent i g
+    | GCancel i => gstep_p LCancel i g
     | GChild i | GKill i =>
         match nth_error (g_invs g) i with
         | Some v =>
@@ -449,7 +500,7 @@ Section Global.
 
   Definition g_all_done (g : gst) : bool := forallb (fun v => p_done (g_loc v)) (g_invs g).
   Definition g_choices (g : gst) : list gchoice :=
-    flat_map (fun i => [GParent i; GChild i; GKill i]) (seq 0 (List.length (g_invs g))).
+    flat_map (fun i => [GParent i; GChild i; GKill i; GCancel i]) (seq 0 (List.length (g_invs g))).
   Definition g_enabled (g : gst) : bool :=
     existsb (fun c => match gstep c g with Some _ => true | None => false end) (g_choices g).
   Definition g_blocked_forever (g : gst) : bool := negb (g_all_done g) && negb (g_enabled g).
